@@ -4,6 +4,7 @@ import sys
 sys.path.insert(0, os.path.dirname(os.path.abspath(__file__)))
 import core  # noqa: E402
 import genes  # noqa: E402  (kernel II: gene bookkeeping; contexts at specification level, coq/theories/Genes/Ctx.v)
+import ctxmon  # noqa: E402  (specification-level monitor over context-aware operations outside the kernels)
 import groups  # noqa: E402  (kernel III: groups and identifier changes; contexts at specification level, Groups/Ctx.v)
 
 if __name__ == "__main__":
@@ -23,4 +24,4 @@ if __name__ == "__main__":
                           "`restored` of Genes/Check.v evaluated on the harness's observations",
                           "groups kernel: likewise at specification level (Groups/Ctx.v); `restored` / `groups_restored` of "
                           "Groups/Check.v compare the observations at __enter__ and after __exit__"],
-        extra=[genes.run_ctx, groups.run_ctx], extra_targets=genes.EXTRA_TARGETS + groups.EXTRA_TARGETS))
+        extra=[genes.run_ctx, groups.run_ctx, ctxmon.run], extra_targets=genes.EXTRA_TARGETS + groups.EXTRA_TARGETS))
